@@ -154,12 +154,41 @@ def load_check(cid):
 # ------------------------------------------------------------------------------------------------
 # worker side
 # ------------------------------------------------------------------------------------------------
+_CRASH_SIGNALS = {-11: "SIGSEGV", -6: "SIGABRT", -7: "SIGBUS", -8: "SIGFPE", -4: "SIGILL"}
+
+
+def default_classify_death(rc, log):
+    """A worker killed by a crash signal while a SophT frame is on the Python stack (faulthandler dump in the shard log): SophT took
+    the interpreter down on an input the workload considers admissible - a violation like any `*-raises` one.  Anything else
+    (SIGKILL from the OOM killer, a crash with no SophT frame on the stack, no dump) stays inconclusive."""
+    sig = _CRASH_SIGNALS.get(rc) if isinstance(rc, int) else None
+    if sig is None or "Fatal Python error" not in log:
+        return None
+    dump = log[log.rindex("Fatal Python error"):]
+    frames = [ln.strip() for ln in dump.splitlines() if ln.strip().startswith("File ")]
+    repo = os.path.realpath(env.REPO)
+    sopht = [ln for ln in frames if ("/sopht/" in ln and (repo in ln or "/sopht/" in ln))]
+    if not sopht:
+        return None
+    top = sopht[0]
+    fn = top.split(" in ")[-1] if " in " in top else "?"
+    fname = os.path.basename(top.split('"')[1]) if '"' in top else "?"
+    return {"violations": [{"mech": f"native-crash-under-sopht-call:{sig}:{fname}:{fn}",
+                            "msg": f"worker process died with {sig} while {fname}:{fn} was executing (Python stack from faulthandler): " + " | ".join(frames[:6])}]}
+
+
 def worker_main(argv):
     cid, shard_path, out_path = argv
     with open(shard_path) as f:
         shard = json.load(f)
     t0 = time.time()
     rec = Recorder(cid, shard)
+    try:
+        import faulthandler
+
+        faulthandler.enable(all_threads=False)  # a crash in native code leaves the Python stack in the shard log (see default_classify_death)
+    except Exception:
+        pass
     try:
         mod = load_check(cid)
         from . import compat
@@ -254,6 +283,8 @@ def run_shards(cid, shards, nproc=None, timeout=1800, mod=None):
                             verdict = mod.classify_death(sh, rc, logtxt)
                         except Exception as e:  # pragma: no cover
                             verdict = {"inconclusive": [f"classify_death failed: {e}"]}
+                    if not verdict and rc != "timeout":
+                        verdict = default_classify_death(rc, logtxt)
                     if verdict and verdict.get("violations"):
                         rec = Recorder(cid, sh)
                         for v in verdict["violations"]:
